@@ -169,10 +169,11 @@ def _f(lo, hi):
 
 @st.composite
 def st_band(draw):
-    """fs, f_range with period at f_lo in [10, 64] samples, f_hi < 0.45 fs."""
+    """fs, f_range with period at f_lo mostly in [10, 64] samples (a third: 4..9 or 65..260), f_hi < 0.45 fs."""
     fs = draw(st.one_of(st.sampled_from(FS_CHOICES), st.sampled_from(FS_CHOICES),
                         st.integers(500, 20000).map(lambda v: v / 10.0)))
-    p_lo = draw(st.one_of(st.integers(10, 64).map(float), _f(10, 64)))
+    p_lo = draw(st.one_of(st.integers(10, 64).map(float), _f(10, 64), st.integers(10, 64).map(float), _f(10, 64),
+                          st.integers(4, 9).map(float), st.integers(65, 260).map(float)))   # fast rhythms at low rates, slow ones at high rates
     f_lo = fs / p_lo
     r = draw(st.one_of(st.sampled_from([1.25, 1.5, 2.0, 3.0]), _f(1.25, 3.0)))
     f_hi = min(f_lo * r, 0.45 * fs)
